@@ -25,11 +25,11 @@ def prefix_length(n, measure, t, q):
     if measure == 'DICE':
         return int(n - ceil(round((t / (2 - t)) * n, 4)) + 1)
     if measure == 'EDIT_DISTANCE':
-        return min(q * t + 1, n)
+        return min(q * int(floor(t)) + 1, n)       # (as repaired in /repo ea2b156)
     if measure == 'JACCARD':
         return int(n - ceil(round(t * n, 4)) + 1)
     if measure == 'OVERLAP':
-        return max(n - t + 1, 0)
+        return max(n - int(ceil(t)) + 1, 0)
 
 
 def overlap_threshold(l, r, measure, t, q):
